@@ -47,6 +47,11 @@ def _case_try(specs, abbr, word):
     return ' '.join(toks)
 
 
+def _h(sel):
+    """deterministic hash of a selection (the built-in hash of strings changes from run to run)"""
+    return sum((i + 1) * sum(map(ord, x)) for i, x in enumerate(sel))
+
+
 def gen_cases(tier, rng):
     cases = []
     # corpus: the pinned-tree witness first
@@ -58,7 +63,7 @@ def gen_cases(tier, rng):
     fwords = ['-v', '-x', '-i', '-j', '--verbose', '--version', '--ver', '--versi', '--verb', '--input', '--inp']
     for n in (2, 3):
         for sel in itertools.permutations(fam, n):
-            if n == 3 and tier == 'quick' and (hash(sel) % 4 != 0):
+            if n == 3 and tier == 'quick' and (_h(sel) % 4 != 0):
                 continue
             for abbr in (True, False):
                 for w in fwords:
@@ -72,6 +77,18 @@ def gen_cases(tier, rng):
                     toks += ['arg:%s:b%d:init=0' % (sp, n) for n, sp in enumerate(main)]
                     toks += ['S:%s:f=%d' % (sub, 0 if abbr else 0x80), 'arg:q:b3:init=0', A.argv_tok([w])]
                     cases.append(' '.join(toks))
+    # long keys in which a prefix occurs again further on (no-notify / --no, abab / --ab), alone and next to keys
+    # that share the prefix: every definition order, every prefix of every key
+    rep = ['no-notify', 'abab', 'abc', 'log-logfile', 'a,abab', 'no', 'log']
+    for n in (1, 2, 3):
+        for sel in itertools.permutations(rep, n):
+            if n == 3 and (_h(sel) % (3 if tier == 'quick' else 1) != 0):
+                continue
+            longs = [sp.split(',')[-1] for sp in sel]
+            ws = sorted({'--' + l[:k] for l in longs for k in range(2, len(l) + 1)} | {'--abx', '--lo'})
+            for abbr in (True, False):
+                for w in ws:
+                    cases.append(_case(list(sel), abbr, w))
     nmax = 3 if tier == 'quick' else 4
     pool = SPECS[:16] if tier == 'quick' else SPECS
     words = ['-i', '-o', '-x'] + ['--' + w for w in WORDS_LONG]
